@@ -8,6 +8,7 @@
    HMAC-SHA256 / ChaCha20 / SHA-256 of `Prim/` (in Driver/C04.lean) and is compared byte for byte
    with the real functions. -/
 import LdkModel.Generated.Timing
+import LdkModel.Generated.InboundMpp
 namespace Ldk.InboundPay
 open Ldk
 
@@ -251,6 +252,8 @@ structure Part where
   value : Nat
   /-- `sender_intended_value` (the onion's amt_to_forward) -/
   intended : Nat
+  /-- `ClaimableHTLC::counterparty_skimmed_fee_msat` (the `skimmed_fee_msat` TLV of the update_add_htlc) -/
+  skim : Option Nat
   cltv : Nat
   /-- `timer_ticks` -/
   ticks : Nat
@@ -276,8 +279,9 @@ structure Mpp where
 def Mpp.init : Mpp := { parts := [], total := 0, tag := 0, evenTlv := false, claiming := false }
 
 inductive Op where
-  /-- an HTLC that passed `verify` reaches `handle_claimable_htlc` -/
-  | part (id value intended total cltv tag : Nat) (evenTlv : Bool)
+  /-- an HTLC that passed `verify` reaches `handle_claimable_htlc`: `value` = amount of the
+      update_add_htlc, `intended` = the onion's amt_to_forward, `skim` = its skimmed_fee_msat TLV -/
+  | part (id value intended : Nat) (skim : Option Nat) (total cltv tag : Nat) (evenTlv : Bool)
   /-- `timer_tick_occurred` -/
   | tick
   /-- `best_block_updated` / `transactions_confirmed` at height `h` (`do_chain_event`) -/
@@ -291,21 +295,29 @@ inductive Op where
   deriving DecidableEq, Repr
 
 inductive Out where
-  /-- `Event::PaymentClaimable { amount_msat, claim_deadline }` -/
-  | claimable (amount deadline : Nat)
+  /-- `Event::PaymentClaimable { amount_msat, counterparty_skimmed_fee_msat, claim_deadline }` -/
+  | claimable (amount skim deadline : Nat)
   /-- the HTLC is failed back (`update_fail_htlc`) -/
   | failPart (id : Nat)
   /-- the preimage is released on the HTLC (`update_fulfill_htlc`) -/
   | fulfilPart (id : Nat)
-  /-- `Event::PaymentClaimed { amount_msat }` (generated for this claim) -/
-  | claimed (amount : Nat)
+  /-- `Event::PaymentClaimed { amount_msat, htlcs, sender_intended_total_msat }` (generated for this
+      claim): the amount, the sum of the per-HTLC `counterparty_skimmed_fee_msat`, the onion total -/
+  | claimed (amount skim total : Nat)
   /-- the `debug_assert!(false)` "should not be reachable" branch of `claim_payment_internal` was entered
       (parts with different `total_value_received`); release builds continue as modelled -/
   | inconsistent
   deriving DecidableEq, Repr
 
+/-- the part as the TRANSLATED decision functions of Generated/InboundMpp.lean (`MppGen`) see it -/
+def Part.g (p : Part) : MppGen.PartG :=
+  { value := p.value, sender_intended_value := p.intended, timer_ticks := p.ticks, total_value_received := p.totalRecv,
+    cltv_expiry := p.cltv, counterparty_skimmed_fee_msat := p.skim }
+
 def sumIntended (ps : List Part) : Nat := (ps.map (·.intended)).sum
 def sumValue (ps : List Part) : Nat := (ps.map (·.value)).sum
+/-- `ClaimablePayment::total_counterparty_skimmed_msat` -/
+def sumSkim (ps : List Part) : Nat := (ps.map (·.skim.getD 0)).sum
 
 /-- mirrors the loop of `check_incoming_mpp_part` (with its early `break`) -/
 def accIntended (acc : Nat) : List Part → Nat
@@ -343,7 +355,7 @@ def stepPart (s : Mpp) (p : Part) : Mpp × List Out :=
     let amount := sumValue all
     let all' := sortParts (all.map fun q => { q with totalRecv := some amount })
     let deadline := claimDeadline ((minCltv all').getD p.cltv)
-    ({ s with parts := all', total := total, tag := tag, evenTlv := ev }, [.claimable amount deadline])
+    ({ s with parts := all', total := total, tag := tag, evenTlv := ev }, [.claimable amount (sumSkim all) deadline])
   else
     ({ s with parts := s.parts ++ [p], total := total, tag := tag, evenTlv := ev }, [])
 
@@ -383,7 +395,7 @@ def stepClaim (s : Mpp) (known : Bool) : Mpp × List Out :=
   | none => (gone, mark)                     -- "no longer had any available HTLCs": dropped
   | some e =>
     if amt ≠ e then (gone, mark)             -- "expected {} msat, had {} available to claim": dropped
-    else if valid then ({ gone with claiming := true }, s.parts.map (Out.fulfilPart ·.id) ++ [.claimed amt])
+    else if valid then ({ gone with claiming := true }, s.parts.map (Out.fulfilPart ·.id) ++ [.claimed amt (sumSkim s.parts) s.total])
     else (gone, mark ++ s.parts.map (Out.failPart ·.id))
 
 /-- mirrors `fail_htlc_backwards_with_reason` -/
@@ -391,8 +403,8 @@ def stepFailBack (s : Mpp) : Mpp × List Out :=
   ({ s with parts := [] }, s.parts.map (Out.failPart ·.id))
 
 def step (s : Mpp) : Op → Mpp × List Out
-  | .part id value intended total cltv tag ev =>
-    stepPart s { id, value, intended, cltv, ticks := 0, totalRecv := none, total, tag, evenTlv := ev }
+  | .part id value intended skim total cltv tag ev =>
+    stepPart s { id, value, intended, skim, cltv, ticks := 0, totalRecv := none, total, tag, evenTlv := ev }
   | .tick => stepTick s
   | .block h => stepBlock s h
   | .claim known => stepClaim s known
